@@ -111,6 +111,65 @@ example :
     let s2 := (step s1 (.evalPr ⟨1, "feature/x", .dev 4 (some 3)⟩ .final [] [])).1
     s2.queue.length = 1 ∧ (lastTargeting (selected s2 [1]) (.dev 5 (some 1))).isSome = true := by decide
 
+/-! ### the selection computed: no hypothesis about it (composition with the model of `QueueCollection._process`)
+
+`Select.selectOf s b false` is what the model of `QueueCollection._process` selects on the collection, the merge
+paths and the statuses of the state `s` under the build-status table `b` of the git host. `Select.Validated s`:
+pull-request ids are positive and `validate()` passed (as far as the selection needs it). -/
+
+open BertE.Select in
+/-- the heads of the COMPUTED selection are green: `HeadsGreen` is a theorem, not a hypothesis -/
+theorem C03_heads_green_closed (s : Sys) (h : Inv s) (hv : Validated s) (b : Builds) :
+    HeadsGreen b s (selectOf s b false) :=
+  fun _ _ _ hl hc => heads_green_selectOf h hv b hl hc
+
+open BertE.Select in
+/-- **C03, queue path, selection computed.** For every state that satisfies the invariant of the system model
+    and every build-status table: in a queue evaluation that merges what `QueueCollection` selects (no force
+    merge — the stated exception), every destination branch that moves — at any crash point, with any refused
+    ref — moves to a commit whose build was reported SUCCESSFUL on that very commit. -/
+theorem C03_queue_closed (s : Sys) (h : Inv s) (hv : Validated s) (b : Builds)
+    (rej : Ref → Bool) (k : Nat) (d : Dest) (new : Commit)
+    (hnew : (observable s (planQueues s (selectOf s b false)) rej k).get (.dest d) = some new)
+    (hmoved : s.remote.get (.dest d) ≠ some new) : b new = .successful :=
+  C03_queue s h.q.base _ b (C03_heads_green_closed s h hv b) rej k d new hnew hmoved
+
+open BertE.Select in
+/-- the same for the uninterrupted event of the system model -/
+theorem C03_step_closed (s : Sys) (h : Inv s) (hv : Validated s) (b : Builds) (d : Dest) (new : Commit)
+    (hnew : (step s (evalQueuesB s b false)).1.remote.get (.dest d) = some new)
+    (hmoved : s.remote.get (.dest d) ≠ some new) : b new = .successful := by
+  apply C03_queue_closed s h hv b noRej (planQueues s (selectOf s b false)).ops.length d new _ hmoved
+  unfold observable
+  rw [List.take_length]
+  exact hnew
+
+open BertE.Select in
+/-- a pull request whose own queue commit on `d` is not green is merged on `d` only together with a newer
+    selected pull request that targets `d` -/
+theorem C03_failed_needs_newer_closed (s : Sys) (h : Inv s) (hv : Validated s) (b : Builds)
+    (d : Dest) (e : QEntry) (c : Commit) (hc : qwOf s.remote e d = some c) (hbad : b c ≠ .successful) :
+    lastTargeting (selected s (selectOf s b false)) d ≠ some e :=
+  C03_failed_needs_newer s _ b (C03_heads_green_closed s h hv b) d e c hc hbad
+
+open BertE.Select in
+/-- Non-vacuity: on the state `exSys` (two queued pull requests) under `exBuilds` (queue commits of the first
+    SUCCESSFUL, of the second FAILED) the computed selection is the first pull request, development/5.1 moves to
+    commit 1, and `C03_step_closed` says its build is SUCCESSFUL; with nothing reported nothing is selected. -/
+example : selectOf exSys exBuilds false = [1] ∧
+    (step exSys (evalQueuesB exSys exBuilds false)).1.remote.get (.dest (.dev 5 (some 1))) = some 1 ∧
+    exSys.remote.get (.dest (.dev 5 (some 1))) ≠ some 1 ∧ exBuilds 1 = .successful ∧
+    selectOf exSys noBuilds false = [] := by
+  have hev : evalQueuesB exSys exBuilds false = .evalQueues [1] := by
+    unfold evalQueuesB; rw [exSys_select.1]
+  refine ⟨exSys_select.1, ?_, by decide, ?_, exSys_select.2.2⟩
+  · rw [hev]; decide
+  · exact C03_step_closed exSys exSys_inv exSys_validated exBuilds (.dev 5 (some 1)) 1
+      (by rw [hev]; decide) (by decide)
+
+example := C03_queue_closed Select.exSys Select.exSys_inv Select.exSys_validated Select.exBuilds
+example := C03_failed_needs_newer_closed Select.exSys Select.exSys_inv Select.exSys_validated Select.exBuilds
+
 end BertE.C03
 
 
